@@ -501,6 +501,14 @@ def gen_c07(r, knobs=None):
                     # the same, as two separate calls
                     b.op(op='cforce', cid=cid, tasks=ns[:1], names=ns[:1], recompute=False, delete=False)
                     ns = ns[1:]
+                if faulty and r.random() < 0.35:
+                    # a run fails inside Chain.force(recompute=True): the error comes out, what was not recomputed stays forced
+                    insts = b.insts(cid)
+                    clos = sorted(b.closure(cid, ns))
+                    b.op(op='armrun', slug=insts[r.choice(clos)].slug, kind=r.choice(['raise_start', 'raise_before_return']), at=0)
+                    b.op(op='cforce', cid=cid, tasks=ns, names=ns, recompute=True, delete=False, fault_expected=True)
+                    b.op(op='disarm')
+                    continue
                 b.op(op='cforce', cid=cid, tasks=ns, names=ns, recompute=r.random() < 0.45 and not faulty,
                      delete=r.random() < 0.4 and b.delete_ok(cid, ns, live), single_as_str=r.random() < 0.5, as_objects=r.random() < 0.25)
             elif t < 0.8:
